@@ -43,7 +43,7 @@ def _exec(args):
 def csig(steps, line):
     """signature of a violating step: the event, and whether a processor failure preceded it"""
     evs = [r["e"]["a"] for r in steps[max(0, line - 3):line]]
-    failed = any(r["e"]["a"] == "ProcDone" and r["e"]["x"] == 0 for r in steps[:line])
+    failed = any(r["e"]["a"] == "ProcDone" and r["e"]["x"] != 1 for r in steps[:line])
     return ">".join(evs) + ("|after-processor-failure" if failed else "")
 
 
